@@ -13,7 +13,7 @@
      fxv rho i l         the scaled integer value * 2^f of a Qfixed(i, f) bit list
    A result None of the model is "the Python method raises". *)
 From Coq Require Import List Bool NArith Arith.
-From QV Require Import Bits Bexp BexpTT M_Codec M_Types P_Types.
+From QV Require Import Bits Bexp BexpTT M_Codec Generated M_Types P_Types.
 Import ListNotations.
 Local Open Scope N_scope.
 
@@ -223,38 +223,34 @@ Theorem C01t_mul_even_const_obj : forall wc t_num raw wr, raw < p2 wc ->
 Proof. exact mul_even_const_obj_spec. Qed.
 Print Assumptions C01t_mul_even_const_obj.
 
-(* QintImp.mul, two Qint operands of any widths, unless both are constants with an even left one *)
-Theorem C01t_qint_mul_partial : forall tl tr wl wr,
+(* QintImp.mul, two Qint operands of any widths, symbolic or constant *)
+Theorem C01t_qint_mul : forall tl tr wl wr,
   good tl wl -> good tr wr -> (0 < wl)%nat -> (0 < wr)%nat ->
-  is_const tl && is_const tr && N.even (const_bits_val (snd tl)) = false ->
   let s := mul_sizing (Nat.max wl wr + Nat.max wl wr) in
   has_val (qint_mul tl tr) (TQint s) s (fun rho => (bv rho (snd tl) * bv rho (snd tr)) mod p2 s).
-Proof. exact qint_mul_partial. Qed.
-Print Assumptions C01t_qint_mul_partial.
-
-(* constant * constant with an even left operand computes left * left *)
-Theorem C01t_qint_mul_refuted :
-  exists tl tr r, good tl 4 /\ good tr 4 /\ qint_mul tl tr = Some r
-    /\ bv rho0 (snd r) <> (bv rho0 (snd tl) * bv rho0 (snd tr)) mod p2 8
-    /\ bv rho0 (snd r) = (bv rho0 (snd tl) * bv rho0 (snd tl)) mod p2 8.
-Proof. exact qint_mul_both_const_refuted. Qed.
-Print Assumptions C01t_qint_mul_refuted.
+Proof. exact qint_mul_spec. Qed.
+Print Assumptions C01t_qint_mul.
 
 (* below 16 result bits nothing is lost: 2w <= 16 -> the product is exact *)
 Theorem C01t_mul_sizing : forall k, (k <= 16)%nat -> (k <= mul_sizing k)%nat.
 Proof. exact mul_sizing_ge. Qed.
 Print Assumptions C01t_mul_sizing.
 
-(* Qint2 * Qint4 -> Qint8 (3 * 13 = 39); a * 6 through the shortcut (13 * 6 = 78) *)
+(* Qint2 * Qint4 -> Qint8 (3 * 13 = 39); a * 6 through the shortcut (13 * 6 = 78);
+   constant * constant with an even left operand (12 * 6 = 72, was 144 before the fix) *)
 Example C01t_qint_mul_ex :
   let a := symv (TQint 2) 0 2 in let b := symv (TQint 4) 2 4 in
-  good a 2 /\ good b 4 /\ is_const a && is_const b = false
+  good a 2 /\ good b 4 /\ good (qint_const_e 4 12) 4
   /\ mul_sizing (Nat.max 2 4 + Nat.max 2 4) = 8%nat
+  /\ option_map (fun r => (fst r, bv (asgn 0) (snd r))) (qint_mul (qint_const_e 4 12) (qint_const_e 4 6)) = Some (TQint 8, 72)
   /\ option_map (fun r => (fst r, bv (asgn (3 + 4 * 13)) (snd r))) (qint_mul a b) = Some (TQint 8, 39)
   /\ option_map (fun r => (fst r, bv (asgn (4 * 13)) (snd r))) (qint_mul b (qint_const_e 4 6)) = Some (TQint 8, 78).
 Proof. repeat split; vm_compute; reflexivity. Qed.
 
-(* ---------------- Qfixed: arithmetic on value * 2^f, same type on both sides ---------------- *)
+(* ---------------- Qfixed: arithmetic on the scaled integer value * 2^f ---------------- *)
+(* operands of two Qfixed types (i1,f1), (i2,f2) are first aligned to the shipped type
+   (max i, max f); align_ok = same type, or that type is shipped; the meaning is stated
+   at the common scale 2^max(f1,f2).  For one type on both sides: p2 (f - f) = 1. *)
 Theorem C01t_qfixed_add : forall i f l r, length l = (i + f)%nat -> length r = (i + f)%nat ->
   exists res, qfixed_add (TQfixed i f, l) (TQfixed i f, r) = Some (TQfixed i f, res)
     /\ length res = (i + f)%nat
@@ -262,12 +258,33 @@ Theorem C01t_qfixed_add : forall i f l r, length l = (i + f)%nat -> length r = (
 Proof. exact qfixed_add_spec. Qed.
 Print Assumptions C01t_qfixed_add.
 
-Theorem C01t_qfixed_sub : forall i f l r, length l = (i + f)%nat -> length r = (i + f)%nat ->
-  exists res, qfixed_sub (TQfixed i f) (TQfixed i f, l) (TQfixed i f, r) = Some (TQfixed i f, res)
+Theorem C01t_qfixed_add_mixed : forall i1 f1 i2 f2 l r,
+  align_ok i1 f1 i2 f2 -> length l = (i1 + f1)%nat -> length r = (i2 + f2)%nat ->
+  let i := Nat.max i1 i2 in let f := Nat.max f1 f2 in
+  exists res, qfixed_add (TQfixed i1 f1, l) (TQfixed i2 f2, r) = Some (TQfixed i f, res)
+    /\ length res = (i + f)%nat
+    /\ forall rho, fxv rho i res
+         = (fxv rho i1 l * p2 (f - f1) + fxv rho i2 r * p2 (f - f2)) mod p2 (i + f).
+Proof. exact qfixed_add_mixed_spec. Qed.
+Print Assumptions C01t_qfixed_add_mixed.
+
+Theorem C01t_qfixed_sub : forall cls i f l r, (bit_size cls <= i + f)%nat ->
+  length l = (i + f)%nat -> length r = (i + f)%nat ->
+  exists res, qfixed_sub cls (TQfixed i f, l) (TQfixed i f, r) = Some (TQfixed i f, res)
     /\ length res = (i + f)%nat
     /\ forall rho, fxv rho i res = (fxv rho i l + p2 (i + f) - fxv rho i r) mod p2 (i + f).
 Proof. exact qfixed_sub_spec. Qed.
 Print Assumptions C01t_qfixed_sub.
+
+Theorem C01t_qfixed_sub_mixed : forall i1 f1 i2 f2 l r,
+  align_ok i1 f1 i2 f2 -> length l = (i1 + f1)%nat -> length r = (i2 + f2)%nat ->
+  let i := Nat.max i1 i2 in let f := Nat.max f1 f2 in
+  exists res, qfixed_sub (TQfixed i1 f1) (TQfixed i1 f1, l) (TQfixed i2 f2, r) = Some (TQfixed i f, res)
+    /\ length res = (i + f)%nat
+    /\ forall rho, fxv rho i res
+         = (fxv rho i1 l * p2 (f - f1) + p2 (i + f) - fxv rho i2 r * p2 (f - f2)) mod p2 (i + f).
+Proof. exact qfixed_sub_mixed_spec. Qed.
+Print Assumptions C01t_qfixed_sub_mixed.
 
 Theorem C01t_qfixed_cmp : forall i f l r,
   length l = (i + f)%nat -> length r = (i + f)%nat -> (0 < i + f)%nat ->
@@ -281,15 +298,28 @@ Theorem C01t_qfixed_cmp : forall i f l r,
 Proof. exact qfixed_cmp_spec. Qed.
 Print Assumptions C01t_qfixed_cmp.
 
-(* different Qfixed types: gt / lte are still right when the fractional widths
-   agree and the LEFT operand has at least as many integer bits *)
-Theorem C01t_qfixed_cmp_partial : forall i1 i2 f l r,
-  (i2 <= i1)%nat -> length l = (i1 + f)%nat -> length r = (i2 + f)%nat -> (0 < i2 + f)%nat ->
-  let tl := (TQfixed i1 f, l) in let tr := (TQfixed i2 f, r) in
-  cmp_val (qfixed_gt tl tr) (fun rho => fxv rho i2 r <? fxv rho i1 l)
-  /\ cmp_val (qfixed_lte tl tr) (fun rho => fxv rho i1 l <=? fxv rho i2 r).
-Proof. exact qfixed_cmp_partial. Qed.
-Print Assumptions C01t_qfixed_cmp_partial.
+Theorem C01t_qfixed_cmp_mixed : forall i1 f1 i2 f2 l r,
+  align_ok i1 f1 i2 f2 -> length l = (i1 + f1)%nat -> length r = (i2 + f2)%nat ->
+  (0 < Nat.max i1 i2 + Nat.max f1 f2)%nat ->
+  let f := Nat.max f1 f2 in
+  let tl := (TQfixed i1 f1, l) in let tr := (TQfixed i2 f2, r) in
+  let x := fun rho => fxv rho i1 l * p2 (f - f1) in
+  let y := fun rho => fxv rho i2 r * p2 (f - f2) in
+  cmp_val (qfixed_eq tl tr) (fun rho => x rho =? y rho)
+  /\ cmp_val (qfixed_neq tl tr) (fun rho => negb (x rho =? y rho))
+  /\ cmp_val (qfixed_gt tl tr) (fun rho => y rho <? x rho)
+  /\ cmp_val (qfixed_lt tl tr) (fun rho => x rho <? y rho)
+  /\ cmp_val (qfixed_lte tl tr) (fun rho => x rho <=? y rho)
+  /\ cmp_val (qfixed_gte tl tr) (fun rho => y rho <=? x rho).
+Proof. exact qfixed_cmp_mixed_spec. Qed.
+Print Assumptions C01t_qfixed_cmp_mixed.
+
+(* the hypothesis align_ok holds for every pair of shipped Qfixed types (checked on the
+   QFIXED_TYPES list read from /repo on this run, Generated.shipped_qfixed) *)
+Theorem C01t_shipped_qfixed_align_ok : forall i1 f1 i2 f2,
+  In (i1, f1) shipped_qfixed -> In (i2, f2) shipped_qfixed -> align_ok i1 f1 i2 f2.
+Proof. exact shipped_align_ok. Qed.
+Print Assumptions C01t_shipped_qfixed_align_ok.
 
 Theorem C01t_qfixed_mul : forall i f l wc cb,
   length l = (i + f)%nat -> cb <> [] -> forallb is_const_bit cb = true ->
@@ -299,41 +329,20 @@ Theorem C01t_qfixed_mul : forall i f l wc cb,
 Proof. exact qfixed_mul_spec. Qed.
 Print Assumptions C01t_qfixed_mul.
 
-(* every other pairing of Qfixed types is wrong in the faithful model *)
-Theorem C01t_qfixed_add_mixed_refuted :
-  exists tl tr r, fst tl = TQfixed 1 2 /\ fst tr = TQfixed 2 2 /\ wf_te tl /\ wf_te tr
-    /\ qfixed_add tl tr = Some r /\ fst r = TQfixed 2 2
-    /\ fxv rho0 1 (snd tl) = 2 /\ fxv rho0 2 (snd tr) = 0 /\ fxv rho0 2 (snd r) = 8.
-Proof. exact qfixed_add_mixed_refuted. Qed.
-Print Assumptions C01t_qfixed_add_mixed_refuted.
+(* the constant on the left: `3 * a` is dispatched to the Qfixed type's mul as well *)
+Theorem C01t_qfixed_mul_left : forall i f l wc cb,
+  length l = (i + f)%nat -> cb <> [] -> forallb is_const_bit cb = true ->
+  exists res, qfixed_mul (TQfixed i f) (TQint wc, cb) (TQfixed i f, l) = Some (TQfixed i f, res)
+    /\ length res = (i + f)%nat
+    /\ forall rho, fxv rho i res = (fxv rho i l * const_bits_val cb) mod p2 (i + f).
+Proof. exact qfixed_mul_left_spec. Qed.
+Print Assumptions C01t_qfixed_mul_left.
 
-Theorem C01t_qfixed_sub_mixed_refuted :
-  exists tl tr r, fst tl = TQfixed 2 2 /\ fst tr = TQfixed 1 2 /\ wf_te tl /\ wf_te tr
-    /\ qfixed_sub (TQfixed 2 2) tl tr = Some r /\ fst r = TQfixed 2 2
-    /\ fxv rho0 2 (snd tl) = 8 /\ fxv rho0 1 (snd tr) = 2 /\ fxv rho0 2 (snd r) = 0.
-Proof. exact qfixed_sub_mixed_refuted. Qed.
-Print Assumptions C01t_qfixed_sub_mixed_refuted.
-
-Theorem C01t_qfixed_eq_mixed_refuted :
-  exists tl tr e, fst tl = TQfixed 1 2 /\ fst tr = TQfixed 2 2 /\ wf_te tl /\ wf_te tr
-    /\ qfixed_eq tl tr = Some (TBool, [e]) /\ beval rho0 e = true
-    /\ fxv rho0 1 (snd tl) = 2 /\ fxv rho0 2 (snd tr) = 8.
-Proof. exact qfixed_eq_mixed_refuted. Qed.
-Print Assumptions C01t_qfixed_eq_mixed_refuted.
-
-Theorem C01t_qfixed_gt_wider_right_refuted :
-  exists tl tr e, fst tl = TQfixed 1 2 /\ fst tr = TQfixed 2 2 /\ wf_te tl /\ wf_te tr
-    /\ qfixed_gt tl tr = Some (TBool, [e]) /\ beval rho0 e = true
-    /\ fxv rho0 1 (snd tl) = 0 /\ fxv rho0 2 (snd tr) = 8.
-Proof. exact qfixed_gt_wider_right_refuted. Qed.
-Print Assumptions C01t_qfixed_gt_wider_right_refuted.
-
-Theorem C01t_qfixed_gt_misaligned_refuted :
-  exists tl tr e, fst tl = TQfixed 1 2 /\ fst tr = TQfixed 1 3 /\ wf_te tl /\ wf_te tr
-    /\ qfixed_gt tl tr = Some (TBool, [e]) /\ beval rho0 e = false
-    /\ fxv rho0 1 (snd tl) * 2 = 6 /\ fxv rho0 1 (snd tr) = 4.
-Proof. exact qfixed_gt_misaligned_refuted. Qed.
-Print Assumptions C01t_qfixed_gt_misaligned_refuted.
+(* a non-constant multiplier is rejected *)
+Example C01t_qfixed_mul_nonconst_ex :
+  qfixed_mul (TQfixed 2 2) (symv (TQfixed 2 2) 0 4) (symv (TQint 2) 4 2) = None
+  /\ qfixed_mul (TQfixed 2 2) (symv (TQint 2) 4 2) (symv (TQfixed 2 2) 0 4) = None.
+Proof. split; vm_compute; reflexivity. Qed.
 
 (* Qfixed2_2: 1.25 + 2.75 = 4.0 = 0.0 mod 4;  1.25 < 2.75;  1.25 * 3 = 3.75 *)
 Example C01t_qfixed_ex :
@@ -348,20 +357,29 @@ Example C01t_qfixed_ex :
   /\ option_map (fun r => fxv rho 2 (snd r)) (qfixed_mul (TQfixed 2 2) a (qint_const_e 2 3)) = Some 15.
 Proof. repeat split; vm_compute; reflexivity. Qed.
 
+(* different types: a : Qfixed2_3 against the literal 1.5 typed Qfixed1_2 (what `a > 1.5`
+   and `a + 0.5` produce): common type Qfixed2_3, scale 2^3; a = 1.0 is not > 1.5, 1.0 + 1.5 = 2.5 *)
+Example C01t_qfixed_mixed_ex :
+  let a := symv (TQfixed 2 3) 0 5 in let c := cst (TQfixed 1 2) [true; true; false] in
+  let rho := asgn 1 in
+  align_ok 2 3 1 2 /\ In (2, 3)%nat shipped_qfixed /\ In (1, 2)%nat shipped_qfixed
+  /\ fxv rho 2 (snd a) = 8 /\ fxv rho 1 (snd c) * p2 (3 - 2) = 12
+  /\ option_map (fun r => map (beval rho) (snd r)) (qfixed_gt a c) = Some [false]
+  /\ option_map (fun r => (fst r, fxv rho 2 (snd r))) (qfixed_add a c) = Some (TQfixed 2 3, 20).
+Proof.
+  repeat split; try (vm_compute; reflexivity).
+  - right. vm_compute. reflexivity.
+  - vm_compute. tauto.
+  - vm_compute. tauto.
+Qed.
+
 (* ---------------- Qchar, Qbool ---------------- *)
+(* Qchar.eq / neq: ANY two operand lengths (Qchar == Qint of another width included) *)
 Theorem C01t_qchar_eq_neq : forall tl tr, is_qtype (fst tl) = true -> is_qtype (fst tr) = true ->
-  length (snd tl) = length (snd tr) ->
   cmp_val (qchar_eq tl tr) (fun rho => bv rho (snd tl) =? bv rho (snd tr))
   /\ cmp_val (qchar_neq tl tr) (fun rho => negb (bv rho (snd tl) =? bv rho (snd tr))).
 Proof. exact qchar_eq_spec. Qed.
 Print Assumptions C01t_qchar_eq_neq.
-
-Theorem C01t_qchar_eq_qint_refuted :
-  exists tl tr e, fst tl = TQchar /\ fst tr = TQint 4 /\ wf_te tl /\ wf_te tr
-    /\ qchar_eq tl tr = Some (TBool, [e]) /\ beval rho0 e = true
-    /\ bv rho0 (snd tl) = 97 /\ bv rho0 (snd tr) = 1.
-Proof. exact qchar_eq_qint_refuted. Qed.
-Print Assumptions C01t_qchar_eq_qint_refuted.
 
 Theorem C01t_qbool : forall rho tl tr,
   beval rho (snd (qbool_eq tl tr)) = Bool.eqb (beval rho (snd tl)) (beval rho (snd tr))
@@ -372,7 +390,7 @@ Print Assumptions C01t_qbool.
 
 Example C01t_qchar_ex :
   let a := symv TQchar 0 8 in let b := cst TQchar (nbits 8 97) in
-  length (snd a) = length (snd b)
+  option_map (fun r => map (beval (asgn 97)) (snd r)) (qchar_eq a (qint_const_e 4 1)) = Some [false]
   /\ option_map (fun r => map (beval (asgn 97)) (snd r)) (qchar_eq a b) = Some [true]
   /\ option_map (fun r => map (beval (asgn 98)) (snd r)) (qchar_eq a b) = Some [false].
 Proof. repeat split; vm_compute; reflexivity. Qed.
